@@ -188,13 +188,61 @@ def extract_ignore_sends():
     return sites
 
 
-def render_ignore_sends(sites):
+def extract_handler_filter():
+    """how `make_ignore_handler` (file/src/common/gitignore.rs) treats the queued files between the call of
+    update_dir_gitignores and the call of update_file_gitignores:
+      none                  nothing between the two calls touches the file list or the rules
+      reloadCheck           the rules variable passed to update_file_gitignores is bound again by `let V = build_gitignore(…)`
+      startsWithComponents  the file list is filtered (`retain` / `filter`) with `.starts_with(` (path components)
+      startsWithStr         the same with `.starts_with_str(` or a test on `as_str()` / `to_string()` text
+      other                 anything else (nothing is known: counts as "no file line is written")"""
+    code = strip_comments(open(os.path.join(REPO, GITIGNORE_RS)).read())
+    a, b = fn_body(code, 'make_ignore_handler', GITIGNORE_RS)
+    body = code[a:b]
+    d = [m for m in re.finditer(r'\bupdate_dir_gitignores\s*\(', body)]
+    f = [m for m in re.finditer(r'\bupdate_file_gitignores\s*\(([^;]*?)\)\s*,', body)]
+    if len(d) != 1 or len(f) != 1 or d[0].start() > f[0].start():
+        raise RuntimeError(f'translator: make_ignore_handler does not call update_dir_gitignores once and then update_file_gitignores once ({GITIGNORE_RS})')
+    args = [x.strip() for x in f[0].group(1).split(',')]
+    # from the end of the statement that holds the first call to the start of the statement that holds the second (`uwr!(call, …);`)
+    between = body[body.index(';', d[0].end()) + 1:body.rfind(';', 0, f[0].start()) + 1]
+    info = {'file_args': args, 'line': code.count('\n', 0, a + f[0].start()) + 1}
+    if len(args) != 3 or not re.fullmatch(r'&\w+', args[1]) or not re.fullmatch(r'&\w+', args[2]):
+        return dict(info, filter='other', why='arguments of update_file_gitignores are not (&root, &rules, &files)')
+    rules, files = args[1][1:], args[2][1:]
+    stmts = [' '.join(x.split()) for x in between.split(';') if x.strip()]
+    # statements that cannot change the rules or the list: logging macros
+    stmts = [x for x in stmts if not re.match(r'(debug|info|trace|warn)!\s*\(', x)]
+    info['between'] = [x[:160] for x in stmts]
+    touches_files = [x for x in stmts if re.search(r'\b' + files + r'\b', x)]
+    rebinds = [x for x in stmts if re.match(r'let\s+(mut\s+)?' + rules + r'\s*=', x)]
+    rest = [x for x in stmts if x not in touches_files and x not in rebinds]
+    if rest:
+        return dict(info, filter='other', why='statement not recognised: ' + rest[0][:80])
+    if not touches_files and not rebinds:
+        return dict(info, filter='none')
+    if rebinds and not touches_files:
+        ok = len(rebinds) == 1 and re.fullmatch(r'let\s+' + rules + r'\s*=\s*build_gitignore\s*\(\s*&\w+\s*\)\s*(\.unwrap\(\)|\?)', rebinds[0])
+        return dict(info, filter='reloadCheck' if ok else 'other', why='' if ok else 'the rules are bound to something else than build_gitignore(&root)')
+    if touches_files and not rebinds and len(touches_files) == 1:
+        x = touches_files[0]
+        if re.match(files + r'\s*\.\s*retain\s*\(', x) or re.match(r'let\s+' + files + r'\b.*\.filter\s*\(', x):
+            if re.search(r'\.\s*starts_with_str\s*\(|as_str\s*\(\s*\)\s*\.\s*starts_with\s*\(|to_string\s*\(\s*\)\s*\.\s*starts_with\s*\(', x):
+                return dict(info, filter='startsWithStr')
+            if re.search(r'\.\s*starts_with\s*\(', x):
+                return dict(info, filter='startsWithComponents')
+    return dict(info, filter='other', why='the file list is changed in a way that is not recognised')
+
+
+def render_ignore_sends(sites, hfilter='reloadCheck'):
     L = ['import XvcIgnore.IgnoreOps',
          '/-! GENERATED by lib/c16_extract.py from `recheck_from_cache` in file/src/common/mod.rs on every run of the C16 check — do not edit.',
          '    Every `ignore_writer.send(…)` of the function: which `IgnoreOperation` it sends and under which enclosing condition. -/',
          'namespace Ign.Gen', 'open Ign.Git', '', 'def RECHECK_IGNORE_SENDS : List SendSite := [']
     L += [f'  ⟨.{s["kind"]}, .{s["guard"]}⟩' + (',' if i < len(sites) - 1 else '') for i, s in enumerate(sites)]
-    L += [']', '', 'end Ign.Gen']
+    L += [']', '',
+          '/-- how `make_ignore_handler` filters the queued files between `update_dir_gitignores` and `update_file_gitignores` -/',
+          f'def HANDLER_FILE_FILTER : FileFilter := .{hfilter}', '', 'end Ign.Gen']
     return '\n'.join(L) + '\n'
 
 
@@ -228,8 +276,10 @@ def render_hash_algorithms(algs):
 def run(chk=None):
     sends = extract_ignore_sends()
     spath = os.path.join(LEAN_DIR, 'XvcIgnore', 'XvcIgnore', 'Gen', 'IgnoreSends.lean')
-    schanged = write_if_changed(spath, render_ignore_sends(sends))
+    hf = extract_handler_filter()
+    schanged = write_if_changed(spath, render_ignore_sends(sends, hf['filter']))
     if chk is not None:
+        chk.extra['translator_handler_filter'] = hf
         chk.extra['translator_ignore_sends'] = {'generated': os.path.relpath(spath, os.path.dirname(LEAN_DIR)), 'changed': schanged, 'send_sites': sends}
     algs = extract_hash_algorithms()
     apath = os.path.join(LEAN_DIR, 'XvcIgnore', 'XvcIgnore', 'Gen', 'HashAlgorithms.lean')
